@@ -327,7 +327,7 @@ func progress(e *Env, a *untrusted.Analysis, scope map[*ssa.Function]bool) {
 		for _, b := range d.Blocks {
 			for _, in := range b.Instrs {
 				ph, ok := in.(*ssa.Phi)
-				if !ok || ph.Comment != "index" {
+				if !ok || prov.CanonLocal(ph.Parent(), ph.Comment) != "index" {
 					continue
 				}
 				found = true
@@ -435,7 +435,7 @@ func progress(e *Env, a *untrusted.Analysis, scope map[*ssa.Function]bool) {
 			if !ok || ph.Block() != b || !a.T[c.Y] {
 				continue
 			}
-			key := fmt.Sprintf("%s:counted-loop(%s)", load.FuncName(fn), ph.Comment)
+			key := fmt.Sprintf("%s:counted-loop(%s)", load.FuncName(fn), prov.CanonLocal(fn, ph.Comment))
 			okInd := false
 			for i, ed := range ph.Edges {
 				if b.Dominates(b.Preds[i]) {
